@@ -276,7 +276,7 @@ def check_random(env, acc):
 
 def run(tier, seed):
     env = Env(seed)
-    parts = [("states", lambda a: check_states(env, a, 3 if tier == "quick" else 4)),
+    parts = [("states", lambda a: check_states(env, a, 3 if tier == "quick" else 5)),
              ("annotated", lambda a: check_annotated(env, a, 3 if tier == "quick" else 4)),
              ("heralds", lambda a: check_heralds(env, a, 3 if tier == "quick" else 4)),
              ("conv", lambda a: check_conversions(env, a)),
@@ -301,7 +301,7 @@ def run(tier, seed):
                 "a grid incl. 0; random_unitary/permutation N<=5, seeds {0,1,2} twice. distinct_nontrivial = equal-length "
                 "state pairs, annotated pairs, non-empty herald dictionaries.",
         "exhaustive": True,
-        "bounds": {"max_state_length": 3 if tier == "quick" else 4},
+        "bounds": {"max_state_length": 3 if tier == "quick" else 5},
         "assumptions": ["caller-retained lists passed to State(...) are outside the alphabet (statement silent)"],
     }
     return acc, meta
